@@ -343,6 +343,7 @@ func codecCase(rep *Report, s *glue.Subject, d MD, idx int) {
 	}
 
 	// --- C02: deterministic bytes
+	markProp("C02")
 	var detB, plainB []byte
 	marshalOK := true
 	pan, pmsg = safely(func() { detB, err = detOpts.Marshal(S) })
@@ -355,6 +356,7 @@ func codecCase(rep *Report, s *glue.Subject, d MD, idx int) {
 	}
 
 	// --- C01: both modes round trip
+	markProp("C01")
 	if marshalOK {
 		pan, pmsg = safely(func() { plainB, err = plainOpts.Marshal(S) })
 		if pan || err != nil {
@@ -412,6 +414,7 @@ func codecCase(rep *Report, s *glue.Subject, d MD, idx int) {
 	}
 
 	// --- C04: sizes and MarshalAppend
+	markProp("C04")
 	for mi, o := range []proto.MarshalOptions{plainOpts, detOpts} {
 		mode := []string{"plain", "det"}[mi]
 		var sz int
@@ -514,6 +517,7 @@ func codecCase(rep *Report, s *glue.Subject, d MD, idx int) {
 	}
 
 	// --- C05
+	markProp("C05")
 	nm, maxEnt := hasMaps(v)
 	if nm > 0 && marshalOK {
 		h, reps := 3, 4
